@@ -1067,3 +1067,62 @@ pub fn on_other_thread<R: Send>(f: impl FnOnce() -> R + Send) -> R {
         },
     }
 }
+
+
+/// makes `text` readable under `path`: as a regular file, or, if `pipe`, as a named pipe whose writer
+/// (a detached thread that waits for a reader) delivers the text in two pieces 40 ms apart, as
+/// `mkfifo` and a slow producer would. Falls back to a regular file where no pipe can be made.
+pub fn write_file_or_pipe(path: &std::path::Path, text: &str, pipe: bool) -> std::io::Result<()> {
+    if pipe && text.len() >= 2 {
+        let c = std::ffi::CString::new(path.to_str().unwrap_or("")).unwrap_or_default();
+        let _ = std::fs::remove_file(path);
+        if unsafe { libc::mkfifo(c.as_ptr(), 0o600) } == 0 {
+            let (p, t) = (path.to_path_buf(), text.as_bytes().to_vec());
+            std::thread::spawn(move || {
+                use std::io::Write;
+                // blocks until somebody opens the pipe for reading
+                if let Ok(mut f) = std::fs::OpenOptions::new().write(true).open(&p) {
+                    let cut = t.len() * 2 / 5 + 1;
+                    let _ = f.write_all(&t[..cut]);
+                    let _ = f.flush();
+                    std::thread::sleep(std::time::Duration::from_millis(40));
+                    let _ = f.write_all(&t[cut..]);
+                }
+            });
+            return Ok(());
+        }
+    }
+    std::fs::write(path, text)
+}
+
+
+/// an iterator that is not fused: it yields the first `stop` items, then None once, then the
+/// remaining items (and None from then on). A consumer that stops at the first None, as a `for`
+/// loop does, sees the first `stop` items only.
+pub struct Unfused {
+    items: Vec<usize>,
+    stop: usize,
+    pos: usize,
+    paused: bool,
+}
+
+impl Unfused {
+    pub fn new(items: Vec<usize>, stop: usize) -> Unfused {
+        Unfused { items, stop, pos: 0, paused: false }
+    }
+}
+
+impl Iterator for Unfused {
+    type Item = usize;
+    fn next(&mut self) -> Option<usize> {
+        if self.pos == self.stop && !self.paused {
+            self.paused = true;
+            return None;
+        }
+        let x = self.items.get(self.pos).copied();
+        if x.is_some() {
+            self.pos += 1;
+        }
+        x
+    }
+}
